@@ -7,6 +7,7 @@ package main
 // Martian.LexerActions (driver ops C08.act / C08.arr / C08.mapdim / C08.f32u).
 
 import (
+	"errors"
 	"fmt"
 	"path/filepath"
 	"strconv"
@@ -321,7 +322,7 @@ type c08ActCase struct {
 
 func c08ActRun(c *Ctx, site *c08ActSite, tok, kind string) c08ActCase {
 	cs := c08ActCase{site: site, tok: tok, kind: kind, prog: site.prog(tok)}
-	res := c08Guard(3*time.Second, func() (string, error) { return site.run(c, []byte(cs.prog)) })
+	res := c08GuardRendered(3*time.Second, func() (string, error) { return site.run(c, []byte(cs.prog)) })
 	switch {
 	case res.Panic != "":
 		cs.class, cs.impl, cs.msg = "panic", "panic", res.Panic
@@ -464,7 +465,7 @@ func c08Actions(c *Ctx) {
 			continue
 		}
 		cs := c08ActCase{site: f32site, tok: t, kind: kind, prog: t}
-		res := c08Guard(3*time.Second, func() (string, error) {
+		res := c08GuardRendered(3*time.Second, func() (string, error) {
 			if kind == "NUM_INT" {
 				return c08F32Str(syntax.VerifFloat32OfInt([]byte(t))), nil
 			}
@@ -600,7 +601,7 @@ func c08ArrList(c *Ctx) {
 			model = mOuter + " " + mMap
 		}
 		prog := a.prog
-		res := c08Guard(5*time.Second, func() (string, error) {
+		res := c08GuardRendered(5*time.Second, func() (string, error) {
 			st, err := c08ActStage(c, []byte(prog))
 			if err != nil {
 				return "", err
@@ -672,4 +673,17 @@ func c08ActWitnesses(c *Ctx) {
 			What:  "negative witness arrListUnguarded_wraps does not replay",
 			Input: "32768 pairs", Impl: fmt.Sprintf("ok %d", d), Model: reps[2] + " / " + reps[3], Broken: "Props.C08.arr_list_unguarded_wraps"})
 	}
+}
+
+// c08GuardRendered: like c08Guard, and a returned error is rendered (Error()) inside the guarded
+// goroutine too - rendering a syntax error runs code under test (mmLexError.writeTo), a panic there
+// is a panic of the parser's error path, not of the harness.
+func c08GuardRendered(limit time.Duration, f func() (string, error)) c08Res {
+	return c08Guard(limit, func() (string, error) {
+		out, err := f()
+		if err != nil {
+			err = errors.New(err.Error())
+		}
+		return out, err
+	})
 }
